@@ -149,7 +149,7 @@ def codec_part(ctx):
     k = random.Random(ctx.seed).randrange(max(1, nrecv))
     st = [i for i, e in enumerate(evs) if e["ev"] == "recv"][k]
     ctx.sample({"part": "codec", "run": evs[st:st + 5]})
-    return ncases
+    return cases
 
 
 # ------------------------------------------------------------------------------------------------ e2e parts
@@ -162,13 +162,16 @@ def dedup_cases(raw, out):
     return len(lines)
 
 
-def simple_part(ctx, part, module, cfg, defect_cfgs, violated, mode, reset_ev, classify, eval_evs):
+def simple_part(ctx, part, module, cfg, defect_cfgs, violated, mode, reset_ev, classify, eval_evs, cases=None):
     """TLC model check + case emission, defect rejection, one driver process (one in-process MOSN), trace validation."""
-    raw = os.path.join(ctx.tmp, part + "_raw.jsonl")
-    cases = os.path.join(ctx.tmp, part + "_cases.jsonl")
-    r = vlib.run_tlc(ctx, "wire", module, cfg, workers=1, cases_to=raw, timeout=900)
-    ctx.add_tlc(r)
-    ncases = dedup_cases(raw, cases)
+    if cases is None:
+        raw = os.path.join(ctx.tmp, part + "_raw.jsonl")
+        cases = os.path.join(ctx.tmp, part + "_cases.jsonl")
+        r = vlib.run_tlc(ctx, "wire", module, cfg, workers=1, cases_to=raw, timeout=900)
+        ctx.add_tlc(r)
+        ncases = dedup_cases(raw, cases)
+    else:
+        ncases = sum(1 for _ in open(cases))
     for d in defect_cfgs:
         rr = vlib.run_tlc(ctx, "wire", module, d, expect_ok=False, timeout=300)
         if rr["ok"] or rr["violated"] != violated:
@@ -258,9 +261,47 @@ def http_classify(run, kind):
     return "%s:%s:%s" % (rq["pair"], kind, cls)
 
 
+def xe2e_cases(ctx, codec_cases, bursts):
+    """The frame shapes are the initial states TLC enumerated from Codec.tla: pair every request shape of a codec with a
+    response shape of the same codec (both lists cycled) and send it as a burst of each size."""
+    shapes = {}
+    for ln in open(codec_cases):
+        c = json.loads(ln)
+        key = (c["codec"], c["dir"], json.dumps(c["shape"], sort_keys=True), c["fill"])
+        if key not in shapes:
+            c = dict(c); c["ops"] = []
+            shapes[key] = c
+    by = {}
+    for (codec, d, _, _), c in sorted(shapes.items()):
+        if sum(8 + p["kl"] + p["vl"] for p in c["shape"]["hdrs"]) > 65000:
+            continue      # no room left for the service header the route needs
+        by.setdefault(codec, {}).setdefault(d, []).append(c)
+    out = os.path.join(ctx.tmp, "xe2e_cases.jsonl")
+    with open(out, "w") as fh:
+        for codec, dd in sorted(by.items()):
+            rq, rs = dd.get("req", []), dd.get("resp", [])
+            if not rq or not rs:
+                continue
+            for i in range(max(len(rq), len(rs))):
+                for b in bursts:
+                    fh.write(json.dumps({"codec": codec, "burst": b, "req": rq[i % len(rq)], "resp": rs[i % len(rs)]}) + "\n")
+    return out
+
+
+def xe2e_classify(run, kind):
+    return "%s:%s" % (run[0]["codec"], kind)
+
+
 def run(ctx):
     q = ctx.quick()
-    n = codec_part(ctx)
+    codec_cases = codec_part(ctx)
+    xe = simple_part(ctx, "xe2e", "CodecE2E", None, [], None, "xe2e", "xreq", xe2e_classify, ("xup", "xresp"),
+                     cases=xe2e_cases(ctx, codec_cases, (1, 3) if q else (1, 3, 8)))
+    xt = sum(1 for e in xe if e["ev"] == "xend" and e["how"] == "timeout")
+    if xt:
+        ctx.notes.append("xe2e: %d bursts ended on the harness deadline (no verdict taken from them)" % xt)
+        if xt * 4 > sum(1 for e in xe if e["ev"] == "xreq"):
+            raise vlib.Inconclusive("xe2e: %d harness deadlines hit" % xt)
     relay = simple_part(ctx, "relay", "TcpRelay", "TcpRelay.cfg" if q else "TcpRelay_thorough.cfg", ["TcpRelay_defect.cfg"],
                         "NothingLostBeforeEof", "relay", "conn", relay_classify, ("sync", "close", "eof"))
     timeouts = sum(1 for e in relay if e["ev"] == "eof" and e["how"] == "timeout") + sum(1 for e in relay if e["ev"] == "sync" and not e["ok"])
@@ -273,7 +314,9 @@ def run(ctx):
     ctx.cov["rule"] = ("codec: every behaviour recv;(<=1 header/body call | scribble | reuse)*;forward;[..;forward] of length <= MaxOps that TLC "
                        "enumerates from Codec.tla over codec x direction x length classes at the byte-width boundaries (one dimension off its "
                        "unremarkable value in quick, two in thorough) x mutation arguments incl. header blocks of exactly 65535/65536/70009 bytes; "
-                       "one case = one behaviour replayed into the real codec; relay: every schedule of <= MaxOps peer operations "
+                       "one case = one behaviour replayed into the real codec; xe2e: every frame shape of those behaviours (request shape x "
+                       "response shape cycled) as a pipelined burst of 1 and 3 (thorough 8) requests through the xprotocol listener of an in-process "
+                       "MOSN for each of the five codecs; relay: every schedule of <= MaxOps peer operations "
                        "(send of a chunk size / wait for quiescence / close) ending in a close, run through the TCP proxy listener of an in-process "
                        "MOSN; http: every request target of <= MaxSegs segments x query kinds with GET plus methods x bodies x header kinds x "
                        "responses on a plain target, for the four HTTP/1, HTTP/2 listener/cluster pairings of an in-process MOSN")
@@ -283,6 +326,7 @@ def run(ctx):
         "dubbo/dubbo-thrift/tars: the header map is a routing view derived from the payload and has no wire representation; header calls must leave the frame unchanged",
         "tars: the data buffer of a frame is the complete frame (GetData returns it); a replaced buffer is expected to be what is forwarded",
         "header keys are unique within a frame; 4- and 8-byte length fields are not driven to their limits (lengths <= 1 MiB)",
+        "xe2e: request frames carry a 'service' header / rpc command code / 30 s timeout so that they are routable; one-way requests are not sent end to end",
         "relay: a peer closes only after it has received everything the other peer wrote (no reset-induced loss); full close, no half-close",
         "http: header names compare case-insensitively, a repeated field may arrive joined by ', '; Host is not compared; upstream is Go net/http (h1 and h2c)",
     ]
